@@ -192,6 +192,63 @@ def pair_helpers(fx):
     return out
 
 
+def launch_helpers(fx):
+    """crate-local synchronous functions that create the loop for the actor they are given, spawn that loop and return
+    the pair (address, handle) — `Environment::launch::<S>(self, actor)`: {def: {"actor": arg index, "addr": "fN"}}.
+    Functions that return such a helper's result unchanged, handing over their own parameter, are helpers too."""
+    from props.c15 import roots
+    makers = {f["parent"] for f, _k in find_loops(fx)}
+    out = {}
+    changed = True
+    rounds = 0
+    while changed and rounds < 3:
+        changed = False
+        rounds += 1
+        for f in fx.d["fns"]:
+            if f["kind"] not in ("fn", "assoc_fn") or f.get("is_async") or f["def"] in makers or f["def"] in out:
+                continue
+            b = Body(f)
+            os_ = b.origins([0])
+            if len(os_) != 1:
+                continue
+            o = next(iter(os_))
+            if o.kind == "call" and not o.proj:
+                t = b.call_at(o)
+                h = out.get(t.get("resolved")) or out.get(t.get("callee"))
+                if h is not None and h["actor"] < len(t["args"]):
+                    rs = roots(b, t["args"][h["actor"]])
+                    if rs and all(r.kind == "arg" and not r.proj for r in rs) and len({r.site for r in rs}) == 1:
+                        out[f["def"]] = {"actor": next(iter(rs)).site - 1, "addr": h["addr"]}
+                        changed = True
+                continue
+            if o.kind != "agg" or o.proj:
+                continue
+            st = b.blocks[o.site[0]]["s"][o.site[1]]
+            if st["r"].get("ak") != "tuple" or len(st["r"]["ops"]) != 2:
+                continue
+            mk = [(bi, t) for bi, t in b.normal_calls() if (t.get("resolved") or t.get("callee")) in makers or t.get("callee") in makers]
+            sp = [(bi, t) for bi, t in b.normal_calls() if t.get("trait") == "actor::spawner::Spawner" and (t.get("callee") or "").endswith("::spawn_actor")]
+            if len(mk) != 1 or len(sp) != 1:
+                continue
+            (mbi, mt), (sbi, stt) = mk[0], sp[0]
+            lo = b.origins(stt["args"][0])
+            if not (lo and all(x.kind == "call" and x.site == (mbi,) and x.proj[:1] == ("f0",) for x in lo)):
+                continue
+            addr_f = None
+            handle_ok = False
+            for i, op in enumerate(st["r"]["ops"]):
+                xs = b.origins(op)
+                if xs and all(x.kind == "call" and x.site == (mbi,) and x.proj[:1] == ("f1",) for x in xs):
+                    addr_f = "f%d" % i
+                elif xs and all(x.kind == "call" and x.site == (sbi,) and not x.proj for x in xs):
+                    handle_ok = True
+            rs = roots(b, mt["args"][1]) if len(mt["args"]) > 1 else set()
+            if addr_f and handle_ok and rs and all(r.kind == "arg" and not r.proj for r in rs) and len({r.site for r in rs}) == 1:
+                out[f["def"]] = {"actor": next(iter(rs)).site - 1, "addr": addr_f}
+                changed = True
+    return out
+
+
 def find_refresh(fx):
     """bodies of the RestartStrategy::refresh impls (async fn -> the child coroutine holds the code)"""
     out = []
